@@ -228,6 +228,9 @@ class C12(Check):
         stmts = [rec, ["eval_complex_double", R(0)], ["evalf", R(0), bits, "complex"], ["evalf", R(0), bits, "symbolic"]]
         if not cm:
             stmts += [["eval_double", R(0)], ["eval_double_sd", R(0)], ["eval_double_vp", R(0)], ["evalf", R(0), bits, "real"]]
+        if en.gamma_half_integer_risk(rec):
+            self.skip("known:gamma_multiple_2_int_overflow(pre-excluded crasher, C08)")
+            return
         # reference over the recipe first (also guards against astronomically large intermediates)
         try:
             rv = on.stable_value(rec, None, mag=280)
